@@ -223,6 +223,34 @@ fn span_sum_and_merge() {
     assert!(other.total_bytes_allocated() == eb + b1 + b2 && other.total_allocations_count() == ec + c1 + c2 && other.total_iterations() == 8, "merge adds totals");
 }
 
+/// `OperationMetrics::merge` on two ARBITRARY operand states (built through the crate's own
+/// `add_span`, iteration counts including 0): every total is the sum, in both argument orders.
+fn merge_arbitrary() {
+    let mut a = OperationMetrics::default();
+    let mut b = OperationMetrics::default();
+    let (ia, ba, ca) = (nd::u64(), nd::u64(), nd::u64());
+    let (ib, bb, cb) = (nd::u64(), nd::u64(), nd::u64());
+    let lim = 1_u64 << 40;
+    nd::assume(ia <= 4 && ib <= 4 && ba <= lim && bb <= lim && ca <= lim && cb <= lim);
+    let with_a = nd::bool();
+    if with_a {
+        a.add_span(ia, ba, ca);
+    }
+    b.add_span(ib, bb, cb);
+    let (ea_i, ea_b, ea_c, ea_s) = if with_a { (ia, ba, ca, 1) } else { (0, 0, 0, 0) };
+    witness!(with_a && ib == 0 && bb > 0, "merge of a zero-iteration span into a non-empty operation");
+    witness!(!with_a && ib > 0, "merge into an empty operation");
+    let mut ab = a.clone();
+    ab.merge(&b);
+    assert!(ab.total_iterations() == ea_i + ib && ab.total_bytes_allocated() == ea_b + bb && ab.total_allocations_count() == ea_c + cb && ab.span_count() == ea_s + 1,
+        "merge(a, b): iterations, bytes, allocation count and span count are the sums");
+    let mut ba_ = b.clone();
+    ba_.merge(&a);
+    assert!(ba_.total_iterations() == ab.total_iterations() && ba_.total_bytes_allocated() == ab.total_bytes_allocated()
+        && ba_.total_allocations_count() == ab.total_allocations_count() && ba_.span_count() == ab.span_count(),
+        "merge is independent of the argument order");
+}
+
 harnesses! {
     // @verif id=C18 tier=quick timeout=600 mem=8 expect=pass covers=2
     // @bounds Allocator<Recording>::{alloc,alloc_zeroed,realloc,dealloc}: ONE call of solver-chosen kind, every size < 2^40, alignment 2^0..2^7, arbitrary pointer / new size; thread counters + process totals
@@ -253,6 +281,10 @@ harnesses! {
     // @bounds two consecutive spans on one operation with an uncounted call between them; OperationMetrics::merge with arbitrary other totals
     #[cfg_attr(kani, kani::stub(catch_unwind, cu_stub))]
     fn c18_span_sum_and_merge [unwind 4] { span_sum_and_merge() }
+
+    // @verif id=C18 tier=quick timeout=900 mem=12 expect=pass covers=2
+    // @bounds OperationMetrics::merge of two arbitrary operands (0/1 span and 1 span; iterations 0..4, bytes / counts <= 2^40), both argument orders
+    fn c18_merge_arbitrary [unwind 6] { merge_arbitrary() }
 
     // @verif id=C18 tier=quick timeout=600 mem=8 expect=fail
     // @bounds vacuity twin of c18_passthrough_one_call
